@@ -51,6 +51,13 @@ func main() {
 			terms = append(terms, runDistrCase(ta, *seed, i, rep, *profile))
 			rep.Cases++
 		}
+	case "sig":
+		require, caseType, fn = "Sig", "scase", "smismatches"
+		ta := NewTestApp(GenOpts{Time: time.Unix(1690000000, 0).UTC()})
+		for i := lo; i < hi; i++ {
+			terms = append(terms, runSigCase(ta, *seed, i, rep, *profile))
+			rep.Cases++
+		}
 	case "minter":
 		require, caseType = "Minter", "mcase"
 		ta := NewTestApp(GenOpts{Time: time.Unix(1690000000, 0).UTC()})
